@@ -20,13 +20,14 @@ JudgeProbe(e) ==
   \* answered iff an ack with the probe's own sequence number arrived before the deadline
   \* (directly, relayed, or over the fallback stream); stray and late messages change nothing
   /\ (IF e.askedRelays = (IF o.escalated THEN Len(s.relays) ELSE 0)
-      THEN Report("VERDICT", "C19_Answered", e, e.suspect = ~o.answered)
+      THEN Report("VERDICT", "C19_Answered", e, s.sendErr \/ (e.suspect = ~o.answered))   \* (an unsent ping is no probe)
       ELSE PrintT(<<"VACUOUS", "relays-not-asked", l, e.case, 0>>))
   /\ Report("VERDICT", "C19_Cleanup", e, e.handlers = 0)
   /\ Report("VERDICT", "C19_Score", e, e.scoreAfter >= 0 /\ e.scoreAfter <= AwMax - 1)
+  \* the score rises only on a failed probe and falls only on an answered one
   /\ Report("VERDICT", "C19_ScoreCause", e,
             /\ (e.scoreAfter > s.score0 => e.suspect)
-            /\ (e.scoreAfter < s.score0 => ~e.suspect))
+            /\ (e.scoreAfter < s.score0 => o.answered))
   /\ Report("DRIFT", "delta", e, e.delta = o.delta)
   /\ Report("DRIFT", "score", e, e.scoreAfter = o.score)
   /\ Report("DRIFT", "relays-asked", e, e.askedRelays = (IF o.escalated THEN Len(s.relays) ELSE 0))
